@@ -33,12 +33,15 @@
    Design switches (TRUE = intended; FALSE reproduces the code as found):
      FixHttpTurnError        an HTTP producer turn whose process() step raised reports the exception at dispatch end
                              (as found: the turn writes the error into the response body and ends with error = None)
+     FixDropEnds             a socket stream dispatch whose client vanishes before it opened the input stream still ends
+                             (as found: _serve_stream opens the input stream outside the try/finally that reports:
+                             the hook started, the method ran, and neither on_dispatch_end nor the access log follows)
      FixHttpErrorUnwrapped   HTTP /init and exchange-turn failures report the exception the method raised
                              (as found: the transport's internal _RpcHttpError wrapper: telemetry records that type name) *)
 EXTENDS Naturals, Sequences, FiniteSets, TLC
 
 CONSTANTS MaxCalls, MaxTicks, MaxHooks, Behaviours, Transports, VerMismatch, FullPairs, PairHooks,
-          Dev_DescribeUnhooked, Dev_HttpCancelUnhooked, FixHttpTurnError, FixHttpErrorUnwrapped
+          Dev_DescribeUnhooked, Dev_HttpCancelUnhooked, FixHttpTurnError, FixHttpErrorUnwrapped, FixDropEnds
 
 \* ------------------------------------------------------------------------------------------ service
 \* k "unary" | "prod" | "exch";  init "ok" | "raise";  steps: successive process() steps "emit" | "fin" | "raise"
@@ -71,11 +74,13 @@ ErrType == "ValueError"                  \* what every raising method / step of 
 
 RECURSIVE Ticks(_)
 Ticks(n) == IF n = 0 THEN <<>> ELSE <<"t">> \o Ticks(n - 1)
+\* client operations on a stream session: "t" tick / exchange, "i" iterate to the end, "c" close, "x" cancel,
+\* "d" drop: the client vanishes (both pipe ends closed, no close() / cancel()); nothing can follow on that connection
 OpsFor(m) == IF m.k = "unary" THEN {<<>>}
-             ELSE {Ticks(n) \o <<e>> : n \in 0..MaxTicks, e \in {"c", "x"}}
+             ELSE {Ticks(n) \o <<e>> : n \in 0..MaxTicks, e \in {"c", "x", "d"}}
                   \cup (IF m.k = "prod" THEN {<<"i">>, <<"t", "i">>} ELSE {})
 CallDescs == UNION {{[m |-> mm.n, ops |-> o] : o \in OpsFor(mm)} : mm \in Methods}
-ShortOps == {<<>>, <<"c">>, <<"i">>, <<"t", "c">>, <<"t", "x">>, <<"x">>}
+ShortOps == {<<>>, <<"c">>, <<"i">>, <<"t", "c">>, <<"t", "x">>, <<"x">>, <<"d">>, <<"t", "d">>}
 
 \* hook configurations: every sequence of <= MaxHooks behaviours
 RECURSIVE SeqsUpTo(_, _)
@@ -111,7 +116,10 @@ CancelEv(m) == <<E("cancel", 0, m, 0, "none", FALSE)>>
      HookOnlyAroundDispatch  hooks are not started around nothing (a request that never reached the implementation)
      EndExactlyOnce          when the connection / request is over no hook still holds a token
    A clause found false at an event is reported as "<clause>@<method of that event>".                              *)
-MonInit(n) == [open |-> [h \in 1..n |-> 0], stage |-> "idle", last |-> 0, fault |-> "none", nbody |-> 0, bad |-> {}]
+\* lax: the client of this run vanished; what a dispatch the implementation did not fail reports as its error is then
+\* left open (the transport's exception or none)
+MonInit(n) == [open |-> [h \in 1..n |-> 0], stage |-> "idle", last |-> 0, fault |-> "none", nbody |-> 0, bad |-> {},
+               lax |-> FALSE]
 AnyOpen(s, n) == \E h \in 1..n : s.open[h] # 0
 Cl(name, ok) == IF ok THEN {} ELSE {name}
 ClE(name, e, ok) == IF ok THEN {} ELSE {name \o "@" \o e.m}      \* "<clause>@<method of the event it failed at>"
@@ -138,18 +146,19 @@ MonStep(s, e, n) ==
              b == ClE("NoEndWithoutStart", e, held # 0)
                   \cup ClE("SameToken", e, held # 0 => held = e.tok)
                   \cup ClE("EndOrder", e, \A h2 \in 1..n : h2 > e.h => s.open[h2] = 0)
-                  \cup ClE("ErrorIffFailed", e, (e.err = "none") <=> (s.fault = "none"))
+                  \cup ClE("ErrorIffFailed", e, ((e.err = "none") <=> (s.fault = "none")) \/ (s.lax /\ s.fault = "none"))
                   \cup ClE("ErrorIsTheException", e, (e.err # "none" /\ s.fault # "none") => e.err = s.fault)
                   \cup ClE("HookOnlyAroundDispatch", e, s.stage = "run" => s.nbody > 0)
              o2 == IF inRange THEN [s.open EXCEPT ![e.h] = 0] ELSE s.open
          IN [s EXCEPT !.open = o2, !.stage = IF \E h \in 1..n : o2[h] # 0 THEN "ending" ELSE "idle", !.bad = @ \cup b]
-    [] OTHER -> s                                   \* "cancel": runs inside the dispatch on a socket, in none over HTTP
+    [] OTHER -> [s EXCEPT !.nbody = @ + 1]          \* "cancel": inside the dispatch on a socket, in none over HTTP (no demand)
 RECURSIVE MonRun(_, _, _, _)
 MonRun(s, T, i, n) == IF i > Len(T) THEN s ELSE MonRun(MonStep(s, T[i], n), T, i + 1, n)
 MonPrefix(T, n) == MonRun(MonInit(n), T, 1, n)
 MonFinal(s, n) == Cl("EndExactlyOnce", ~AnyOpen(s, n)) \cup Cl("StartOrder", s.stage # "starting")
                   \cup Cl("HookOnlyAroundDispatch", (s.stage = "run" /\ ~AnyOpen(s, n)) => s.nbody > 0)
 Monitor(T, n) == LET s == MonPrefix(T, n) IN s.bad \cup MonFinal(s, n)
+MonitorLax(T, n, lax) == LET s == MonRun([MonInit(n) EXCEPT !.lax = lax], T, 1, n) IN s.bad \cup MonFinal(s, n)
 
 \* mon = the monitor's state after strace (kept incrementally; MonAgrees ties it to the batch definition MonPrefix)
 VARIABLES tr, hooks, script, ip, pc, st, hist, strace, ntok, mon
@@ -179,6 +188,9 @@ CM == Meth(C.m)
 Ev(op, out) == hist' = Append(hist, <<op, out>>)
 Log(evs) == strace' = strace \o evs /\ mon' = MonRun(mon, evs, 1, N)
 NoLog == UNCHANGED <<strace, mon>>
+\* the dispatch of a vanished client may end with the transport's exception or with none: both are admitted
+DropErrs == {"none", "ArrowInvalid"}
+LogLax(evs) == strace' = strace \o evs /\ mon' = MonRun([mon EXCEPT !.lax = TRUE], evs, 1, N)
 Over == pc' = "idle" /\ st' = NoStream
 MayCall == pc = "idle" /\ ip < MaxCalls /\ (ip = 0 \/ hooks \in PairHooks)
 MayFollow(c) == ip = 0 \/ FullPairs \/ c.ops \in ShortOps
@@ -280,15 +292,26 @@ Cancel ==
      ELSE Log(Starts(CM.n, ntok) \o CancelEv(CM.n) \o Ends(CM.n, ntok, "none")) /\ ntok' = ntok + N
   /\ UNCHANGED <<tr, hooks, script, ip>>
 
+\* the client vanishes.  HTTP: nothing is sent (as close()).  Socket family: the serve loop meets EOF; a stream whose
+\* input stream is open (>= 1 tick) ends normally; one whose input stream was never opened ends too (FixDropEnds)
+Drop ==
+  /\ pc = "open" /\ NextOp = "d"
+  /\ Ev("drop", "ok") /\ pc' = "gone" /\ st' = NoStream /\ UNCHANGED ntok
+  /\ IF IsHttp \/ st.dead THEN NoLog
+     ELSE IF st.k > 0 THEN Log(Ends(CM.n, st.base, "none"))
+     ELSE IF FixDropEnds THEN \E err \in DropErrs : LogLax(Ends(CM.n, st.base, err))
+     ELSE NoLog
+  /\ UNCHANGED <<tr, hooks, script, ip>>
+
 StartCall(c) == UnaryCall(c) \/ StreamCall(c)
-Next == (\E c \in CallDescs : StartCall(c)) \/ Tick \/ Close \/ Cancel
+Next == (\E c \in CallDescs : StartCall(c)) \/ Tick \/ Close \/ Cancel \/ Drop
 Spec == Init /\ [][Next]_vars
-Done == pc = "idle" /\ ip >= 1        \* a complete history (every prefix of calls is one)
+Done == pc \in {"idle", "gone"} /\ ip >= 1      \* a complete history (every prefix of calls is one)
 
 \* ------------------------------------------------------------------------------------------ invariants of the model
 PrefixClean == mon.bad = {}                                \* in every state
 DoneClean == Done => (mon.bad \cup MonFinal(mon, N)) = {}   \* whenever a history is complete
-MonAgrees == mon = MonPrefix(strace, N)                    \* (sanity: the incremental monitor is the batch one)
+MonAgrees == mon = MonRun([MonInit(N) EXCEPT !.lax = mon.lax], strace, 1, N)                    \* (sanity: the incremental monitor is the batch one)
 TokensFresh == \A i, j \in 1..Len(strace) : (i < j /\ strace[i].ev = "start" /\ strace[j].ev = "start")
                                               => strace[i].tok < strace[j].tok
 \* a dispatch is open on a socket stream exactly while the stream is
